@@ -80,6 +80,7 @@ func identOf(v Value) *Term {
 }
 
 func (e *Env) eval(x *SExpr) Value {
+	e.ex.specLive = e.live
 	switch x.Kind {
 	case "num":
 		return specInt(Int(x.Num))
@@ -286,7 +287,11 @@ func (ex *Exec) loadFieldAt(st *State, obj *Term, structT types.Type, prefix str
 	if isAddrOnly(ft) {
 		return Value{T: ft, L: []*Term{derivedAddr(obj, prefix, stt, ix)}}
 	}
-	return st.loadObj(obj, structT, prefix+"."+stt.Field(ix).Name(), ft)
+	v := st.loadObj(obj, structT, prefix+"."+stt.Field(ix).Name(), ft)
+	if ex.specLive != nil {
+		ex.assumeLoaded(ex.specLive, v)
+	}
+	return v
 }
 
 func isAddrOnly(t types.Type) bool {
@@ -454,6 +459,12 @@ func (e *Env) evalCall(x *SExpr) Value {
 	case "nulfree":
 		need(1)
 		return specBool(UF("nulfree", SBool, arg(0).L[0]))
+	case "viewarr":
+		need(1)
+		return specInt(UF("sview.arr", SInt, arg(0).L[0]))
+	case "viewoff":
+		need(1)
+		return specInt(UF("sview.off", SInt, arg(0).L[0]))
 	case "tag":
 		need(1)
 		return specInt(arg(0).L[0])
@@ -529,6 +540,14 @@ func (e *Env) evalCall(x *SExpr) Value {
 	var flat []*Term
 	for i, p := range sf.Params {
 		v := arg(i)
+		if sf.Rec {
+			// name large argument terms so that unfoldings stay small
+			nv := Value{T: v.T, L: make([]*Term, len(v.L))}
+			for j, t := range v.L {
+				nv.L[j] = e.ex.nameTerm(e.live, t)
+			}
+			v = nv
+		}
 		vars[p] = v
 		flat = append(flat, v.L...)
 	}
@@ -567,4 +586,27 @@ func (s *State) heapArrS(name, arrSort string) *Term {
 	t := Var("H0."+name, arrSort)
 	s.Heap[name] = t
 	return t
+}
+
+// nameTerm introduces a fresh constant for a large term (definitional equality recorded in st).
+func (ex *Exec) nameTerm(st *State, t *Term) *Term {
+	if t.Op == "int" || t.Op == "var" || t.Op == "true" || t.Op == "false" || len(t.String()) < 120 {
+		return t
+	}
+	key := "name:" + t.String()
+	if v, ok := ex.named[key]; ok {
+		if !st.Defs[key] {
+			st.Defs[key] = true
+			st.assume(Eq(v, t))
+		}
+		return v
+	}
+	v := ex.freshVar("nm", t.Sort)
+	if ex.named == nil {
+		ex.named = map[string]*Term{}
+	}
+	ex.named[key] = v
+	st.Defs[key] = true
+	st.assume(Eq(v, t))
+	return v
 }
